@@ -22,6 +22,14 @@ type swScheme struct {
 	Mismatch int    `json:"mismatch"`
 	Open     int    `json:"open"`
 	Ext      int    `json:"ext"`
+	Unit     int    `json:"unit,omitempty"` // scores are integers in units of 1/Unit (2 when absent)
+}
+
+func (s swScheme) unit() float64 {
+	if s.Unit > 0 {
+		return float64(s.Unit)
+	}
+	return 2
 }
 type swCase struct {
 	S1  []int    `json:"s1"`
@@ -70,10 +78,10 @@ func runSW(env *Env, id string, c swCase) {
 		q2 := align.NewSequence("s2", i2b(c.S2), "")
 		a := align.NewPwAligner(q1, q2, align.ALIGN_ALGO_SW)
 		if c.Sch.Mode == "scores" {
-			a.SetScore(float64(c.Sch.Match)/2, float64(c.Sch.Mismatch)/2)
+			a.SetScore(float64(c.Sch.Match)/c.Sch.unit(), float64(c.Sch.Mismatch)/c.Sch.unit())
 		}
-		a.SetGapOpenScore(float64(c.Sch.Open) / 2)
-		a.SetGapExtendScore(float64(c.Sch.Ext) / 2)
+		a.SetGapOpenScore(float64(c.Sch.Open) / c.Sch.unit())
+		a.SetGapExtendScore(float64(c.Sch.Ext) / c.Sch.unit())
 		_, err := a.Alignment()
 		ev.Obs.After1, ev.Obs.After2 = b2i(q1.SequenceChar()), b2i(q2.SequenceChar())
 		if err != nil {
@@ -81,9 +89,9 @@ func runSW(env *Env, id string, c swCase) {
 			return
 		}
 		ev.Kind = "ok"
-		sc := a.MaxScore() * 2
-		if sc != math.Trunc(sc) {
-			ev.Kind, ev.Msg = "panic", fmt.Sprintf("score %v is not a multiple of 0.5", a.MaxScore())
+		sc := math.Round(a.MaxScore() * c.Sch.unit())
+		if math.Abs(sc-a.MaxScore()*c.Sch.unit()) > 1e-6 {
+			ev.Kind, ev.Msg = "panic", fmt.Sprintf("score %v is not a multiple of 1/%v", a.MaxScore(), c.Sch.unit())
 			return
 		}
 		o := &ev.Obs
@@ -111,7 +119,7 @@ func swCli(dir, id string, c swCase) (ev swEvent, ok bool) {
 	if os.WriteFile(in, []byte(fmt.Sprintf(">s1\n%s\n>s2\n%s\n", string(i2b(c.S1)), string(i2b(c.S2)))), 0o644) != nil {
 		return ev, false
 	}
-	half := func(x int) string { return strconv.FormatFloat(float64(x)/2, 'g', -1, 64) }
+	half := func(x int) string { return strconv.FormatFloat(float64(x)/c.Sch.unit(), 'g', -1, 64) }
 	argv := []string{"sw", "-i", in, "-o", out, "-l", lg, "--gap-open=" + half(c.Sch.Open), "--gap-extend=" + half(c.Sch.Ext)}
 	if c.Sch.Mode == "scores" {
 		argv = append(argv, "--match="+half(c.Sch.Match), "--mismatch="+half(c.Sch.Mismatch))
@@ -147,11 +155,11 @@ func swCli(dir, id string, c swCase) (ev swEvent, ok bool) {
 	o.R1, o.R2 = s2i(rows["s1"]), s2i(rows["s2"])
 	o.St1, o.E1, o.St2, o.E2 = int(num["Query Start,End"][0]), int(num["Query Start,End"][1]), int(num["Subject Start,End"][0]), int(num["Subject Start,End"][1])
 	o.Len, o.Nm, o.Nmm, o.Ng = int(num["Align length"][0]), int(num["Align Matches"][0]), int(num["Align Mismatches"][0]), int(num["Align Gaps"][0])
-	sc := num["Align Score"][0] * 2
-	if sc != math.Trunc(sc) {
+	sc := num["Align Score"][0] * c.Sch.unit() // (printed with two decimals)
+	if math.Abs(sc-math.Round(sc)) > 1e-6 {
 		return ev, false
 	}
-	o.Score = int(sc)
+	o.Score = int(math.Round(sc))
 	ev.Kind = "ok"
 	return ev, true
 }
@@ -195,6 +203,14 @@ func swFamily(env *Env) error {
 		c.Sch.Open = c.Sch.Ext - rng.Intn(20)
 		if rng.Intn(4) == 0 {
 			c.Sch.Open, c.Sch.Ext = -20, -1 // the defaults
+		} else if rng.Intn(4) == 0 {
+			// penalties in tenths (0.1, 0.3, ... are not exact in binary)
+			c.Sch.Unit = 10
+			c.Sch.Ext = -(1 + rng.Intn(9))
+			c.Sch.Open = c.Sch.Ext - rng.Intn(30)
+			if c.Sch.Mode == "scores" {
+				c.Sch.Match, c.Sch.Mismatch = 10*(1+rng.Intn(3)), -(1 + rng.Intn(30))
+			}
 		}
 		core := make([]int, 1+rng.Intn(maxl))
 		for k := range core {
